@@ -301,7 +301,7 @@ func run(r *mon.Run) {
 			}
 			for k := 0; k < nm; k++ {
 				m := append([]byte{}, s.file...)
-				for e := 0; e < 1+g.Intn(3); e++ {
+				for e := 0; e < 1+g.Intn(3) && len(m) > 0; e++ {
 					pos := g.Intn(len(m))
 					switch g.Intn(4) {
 					case 0:
